@@ -459,7 +459,7 @@ func run(c *fw.Ctx) {
 	rec(nil)
 
 	// 2. random lists of distinct version strings
-	n := c.N(700, 40000)
+	n := c.N(2200, 60000)
 	for _, sys := range systems {
 		for it := 0; it < n; it++ {
 			k := listLen(r)
@@ -476,7 +476,7 @@ func run(c *fw.Ctx) {
 	}
 
 	// 3. Maven lists seeded with the intransitive shapes (known finding class), ≤ 8 elements
-	for it := 0; it < c.N(150, 4000); it++ {
+	for it := 0; it < c.N(400, 6000); it++ {
 		vs := genList(r, resolve.Maven, 3+r.Intn(6), func() string {
 			if r.Intn(3) > 0 {
 				return semverops.Pick(r, zeroqPool...)
@@ -488,7 +488,7 @@ func run(c *fw.Ctx) {
 
 	// 4. correspondence only: duplicate version strings, records of other systems /
 	// names / types inside one list, an unknown system (≤ 10 elements: stable insertion sort)
-	for it := 0; it < c.N(300, 6000); it++ {
+	for it := 0; it < c.N(1000, 12000); it++ {
 		sys := []resolve.System{resolve.NPM, resolve.Maven, resolve.PyPI, resolve.UnknownSystem}[r.Intn(4)]
 		gsys := sys
 		if sys == resolve.UnknownSystem {
